@@ -109,6 +109,9 @@ func (fs *LocalFS) SetSymlinkPermissions(n NodeSymlink) error {
 }
 
 func (fs *LocalFS) CreateDevice(n NodeDevice) error {
+	if err := fs.settle(n.Name); err != nil {
+		return err
+	}
 	dst := filepath.Join(fs.Root, n.Name)
 
 	if err := syscall.Unlink(dst); err != nil && !os.IsNotExist(err) {
